@@ -136,6 +136,7 @@ macro_rules! ifr_instance {
         #[kani::proof]
         #[kani::unwind(16)]
         #[kani::stub(verif_support::reexp::catch_unwind, verif_support::stub_cu)]
+        #[kani::stub(crate::parameters::file_spec::TimestampCfg::get_timestamp, crate::parameters::file_spec::verif_harness::cut_get_timestamp)]
         #[kani::stub(get_highest_index, stub_highest)]
         #[kani::stub(number_infix, stub_number_infix)]
         #[kani::stub(crate::FileSpec::as_pathbuf, stub_as_pathbuf)]
@@ -162,6 +163,7 @@ ifr_instance!(c19_index_for_rcurrent_eacces, 13);
 #[kani::proof]
 #[kani::unwind(12)]
 #[kani::stub(verif_support::reexp::catch_unwind, verif_support::stub_cu)]
+#[kani::stub(crate::parameters::file_spec::TimestampCfg::get_timestamp, crate::parameters::file_spec::verif_harness::cut_get_timestamp)]
 fn c16_number_infix() {
     vs::link_all();
     let idx: u32 = kani::any();
@@ -258,6 +260,7 @@ macro_rules! highest_instance {
         #[kani::proof]
         #[kani::unwind(20)]
         #[kani::stub(verif_support::reexp::catch_unwind, verif_support::stub_cu)]
+        #[kani::stub(crate::parameters::file_spec::TimestampCfg::get_timestamp, crate::parameters::file_spec::verif_harness::cut_get_timestamp)]
         #[kani::stub(crate::writers::file_log_writer::state::list_and_cleanup::list_of_log_and_compressed_files, stub_listing_hi)]
         fn $name() {
             highest_case($kind, $basename);
@@ -329,6 +332,7 @@ fn restart_after_kill_case(errno_of_rename: u64) {
 #[kani::proof]
 #[kani::unwind(16)]
 #[kani::stub(verif_support::reexp::catch_unwind, verif_support::stub_cu)]
+#[kani::stub(crate::parameters::file_spec::TimestampCfg::get_timestamp, crate::parameters::file_spec::verif_harness::cut_get_timestamp)]
 #[kani::stub(get_highest_index, stub_highest)]
 #[kani::stub(number_infix, stub_number_infix)]
 #[kani::stub(crate::FileSpec::as_pathbuf, stub_as_pathbuf)]
@@ -341,6 +345,7 @@ fn c11_restart_after_kill_current_present() {
 #[kani::proof]
 #[kani::unwind(16)]
 #[kani::stub(verif_support::reexp::catch_unwind, verif_support::stub_cu)]
+#[kani::stub(crate::parameters::file_spec::TimestampCfg::get_timestamp, crate::parameters::file_spec::verif_harness::cut_get_timestamp)]
 #[kani::stub(get_highest_index, stub_highest)]
 #[kani::stub(number_infix, stub_number_infix)]
 #[kani::stub(crate::FileSpec::as_pathbuf, stub_as_pathbuf)]
